@@ -1,7 +1,183 @@
-//! C22 — not implemented yet.
+//! C22 — SystemVerilog translation preserves behaviour.
+#[path = "c22_pipe.rs"]
+mod pipe;
+
+use pipe::{BuildErr, ClockCfg, Stim};
 use vcore::Ctx;
+use vsv::{Bv, Sim};
+
+fn splitmix(s: &mut u64) -> u64 {
+    *s = s.wrapping_add(0x9E3779B97F4A7C15);
+    let mut z = *s;
+    z = (z ^ (z >> 30)).wrapping_mul(0xBF58476D1CE4E5B9);
+    z = (z ^ (z >> 27)).wrapping_mul(0x94D049BB133111EB);
+    z ^ (z >> 31)
+}
+
+/// Clock / reset of a hand-written text, from the usual names.
+fn clock_cfg_from_text(sv: &str) -> ClockCfg {
+    let squeezed: String = sv.split_whitespace().collect::<Vec<_>>().join(" ");
+    let mut cfg = ClockCfg::default();
+    if squeezed.contains("edge clk") {
+        cfg.clock = Some(("clk".into(), !squeezed.contains("negedge clk")));
+    }
+    for r in ["rst_n", "rst"] {
+        let has_port = squeezed.contains(&format!(" {r},")) || squeezed.contains(&format!(" {r} )")) || squeezed.contains(&format!(" {r})"));
+        if !has_port {
+            continue;
+        }
+        let asyn = squeezed.contains(&format!("edge {r}"));
+        let high = if asyn { squeezed.contains(&format!("posedge {r}")) } else { !(squeezed.contains(&format!("!{r}")) || squeezed.contains(&format!("~{r}"))) };
+        cfg.reset = Some((r.into(), high, !asyn));
+        break;
+    }
+    cfg
+}
+
+fn last_module(sv: &str) -> String {
+    let mut name = String::new();
+    let toks: Vec<&str> = sv.split(|c: char| !(c.is_ascii_alphanumeric() || c == '_')).filter(|s| !s.is_empty()).collect();
+    for w in toks.windows(2) {
+        if w[0] == "module" {
+            name = w[1].to_string();
+        }
+    }
+    name
+}
+
+/// Developer probe (not a check): the whole pipeline on hand-written files.
+fn probe(path: &str) {
+    let mut files = vec![];
+    let p = std::path::Path::new(path);
+    if p.is_dir() {
+        for e in std::fs::read_dir(p).unwrap().flatten() {
+            if e.path().extension().is_some_and(|x| x == "sv") {
+                files.push(e.path());
+            }
+        }
+        files.sort();
+    } else {
+        files.push(p.to_path_buf());
+    }
+    let verbose = std::env::var("VERIF_C22_VERBOSE").is_ok();
+    for f in files {
+        let sv = std::fs::read_to_string(&f).unwrap();
+        let name = f.file_name().unwrap().to_string_lossy().to_string();
+        let r = std::thread::Builder::new()
+            .stack_size(16 << 20)
+            .spawn(move || probe_one(&sv, verbose))
+            .unwrap()
+            .join()
+            .unwrap_or_else(|_| "PANIC".into());
+        println!("=== {name}: {r}");
+    }
+}
+
+fn probe_one(sv: &str, verbose: bool) -> String {
+    let top = last_module(sv);
+    let cfg = clock_cfg_from_text(sv);
+    let t = match pipe::translate(sv) {
+        Ok(t) => t,
+        Err(e) => return format!("sv-parser rejects the text: {e}"),
+    };
+    if verbose {
+        println!("----- veryl\n{}", t.veryl);
+    }
+    if !t.unsupported.is_empty() {
+        return format!("unsupported reported: {:?}", t.unsupported);
+    }
+    let b = match pipe::build(&t.veryl, &cfg.metadata()) {
+        Ok(b) => b,
+        Err(BuildErr::Parse(e)) => {
+            if !verbose {
+                println!("----- veryl\n{}", t.veryl);
+            }
+            return format!("VERYL PARSE ERROR: {}", e.lines().take(12).collect::<Vec<_>>().join("\n"));
+        }
+        Err(BuildErr::Analyze(e)) => {
+            if !verbose {
+                println!("----- veryl\n{}", t.veryl);
+            }
+            return format!("ANALYZER ERRORS: {e:#?}");
+        }
+    };
+    if verbose {
+        println!("----- emitted\n{}", b.sv);
+        println!("----- warnings {:?}", b.warnings);
+    }
+    let mut so = match Sim::from_sv(&[sv], &top) {
+        Ok(s) => s,
+        Err(u) => return format!("vsv cannot read the ORIGINAL: {u}"),
+    };
+    let mut se = match Sim::from_sv(&[&b.sv], &format!("prj_{top}")) {
+        Ok(s) => s,
+        Err(u) => {
+            println!("----- emitted\n{}", b.sv);
+            return format!("vsv cannot read the EMITTED text: {u}");
+        }
+    };
+    let po = pipe::port_specs(&so);
+    let pe = pipe::port_specs(&se);
+    let sig = |v: &[pipe::PortSpec]| v.iter().map(|p| format!("{}{}:{}{}", if p.input { "i " } else { "o " }, p.name, p.width, if p.signed { "s" } else { "" })).collect::<Vec<_>>();
+    if sig(&po) != sig(&pe) {
+        return format!("PORTS DIFFER: {:?} vs {:?}", sig(&po), sig(&pe));
+    }
+    let mut stim = Stim::default();
+    for p in &po {
+        let is_pin = cfg.clock.as_ref().is_some_and(|c| c.0 == p.name) || cfg.reset.as_ref().is_some_and(|c| c.0 == p.name);
+        if is_pin {
+            continue;
+        }
+        if p.input {
+            stim.inputs.push(p.clone());
+        } else {
+            stim.outputs.push(p.clone());
+        }
+    }
+    let mut s = 7u64;
+    for i in 0..24 {
+        let vals = stim
+            .inputs
+            .iter()
+            .map(|p| {
+                let bits: Vec<vsv::Bit> = (0..p.width)
+                    .map(|_| vsv::Bit::from_bool(splitmix(&mut s) & 1 == 1))
+                    .collect();
+                let k = splitmix(&mut s) % 6;
+                match k {
+                    0 => Bv::zeros(p.width, false),
+                    1 => Bv::zeros(p.width, false).not(),
+                    _ => Bv::new(bits, false),
+                }
+            })
+            .collect();
+        stim.steps.push((i < 2 && cfg.reset.is_some(), vals));
+    }
+    let pins = cfg.pins();
+    let ro = match pipe::run_sim(&mut so, &pins, &stim) {
+        Ok(r) => r,
+        Err(u) => return format!("vsv cannot run the ORIGINAL: {u}"),
+    };
+    let re = match pipe::run_sim(&mut se, &pins, &stim) {
+        Ok(r) => r,
+        Err(u) => return format!("vsv cannot run the EMITTED text: {u}"),
+    };
+    let (st, mm) = pipe::compare(&ro, &re, &stim.outputs);
+    if let Some(m) = mm {
+        if !verbose {
+            println!("----- veryl\n{}\n----- emitted\n{}", t.veryl, b.sv);
+        }
+        let ins: Vec<String> = stim.inputs.iter().zip(&stim.steps[m.step].1).map(|(p, v)| format!("{}={}", p.name, v)).collect();
+        return format!("MISMATCH step {} output {}: original {} emitted {}  inputs {:?}", m.step, m.output, m.orig, m.emitted, ins);
+    }
+    format!("ok (compared {} bits, {} x bits, lively={}, warnings {:?})", st.compared_bits, st.x_bits, st.lively, b.warnings.iter().map(|w| w.0.clone()).collect::<Vec<_>>())
+}
 
 pub fn run(_ctx: &Ctx) {
+    if let Ok(p) = std::env::var("VERIF_C22_PROBE") {
+        probe(&p);
+        std::process::exit(0);
+    }
     println!("INCONCLUSIVE property=C22: check not implemented");
     std::process::exit(2);
 }
